@@ -285,7 +285,10 @@ def rand_case(rng, mode=None):
     nfr = rng.choice([1, 2, 2, 3, 3, 4])
     names = rng.sample(['A', 'B', 'PEO', 'D', 'OH', 'X'], nfr)
     kinds = rng.choice(['$', '$$><', '><', '$$$><', '$><' if rng.random() < 0.97 else '$><!'])
-    labels = rng.choice([('',), ('', 'A'), ('', '', 'A', 'B'), ('A', 'B', 'C')])
+    # labels may end in digits ([$A1], [>B2], BigSMILES-style [$1], [<12]): the reader appends the order digit,
+    # so '$A11' is label A1 with order 1 and the bond order is the LAST character only
+    labels = rng.choice([('',), ('', 'A'), ('', '', 'A', 'B'), ('A', 'B', 'C'),
+                         ('A1', 'B2', '1', '12'), ('', 'A1', '1'), ('A', 'A1', 'A2'), ('1', '2')])
     syms = rng.choice([('',), ('', '', '', '='), ('', '', '=', '#')])
     pool = AA_SKELETONS if aa else gens.CG_SKELETONS
     aromatic = aa and rng.random() < 0.08      # aromatic rings: the mass model does not cover them -> user masses
@@ -353,6 +356,12 @@ def rand_case(rng, mode=None):
 
 
 CORPUS = [
+    {'frags': '{#A=[$A1]CC[$A2],#B=[$A1]=C[$A2]=C}', 'aa': True, 'poly': {'$A11': 1, '$A21': 1, '$A12': 1, '$A22': 1},
+     'fragreact': {}, 'term': [], 'masses': None, 'seed': 2, 'target': 150, 'start': 'A'},
+    {'frags': '{#A=[>B2][#X][<B2],#B=[<B2][#Y][>B2][$1]}', 'aa': False, 'poly': {}, 'fragreact': {}, 'term': ['$11'],
+     'masses': {'A': 10, 'B': 20}, 'seed': 4, 'target': 90, 'start': None},
+    {'frags': '{#A=[<12]CC[>12],#B=[$1]O[$1]}', 'aa': True, 'poly': {}, 'fragreact': {}, 'term': [], 'masses': None,
+     'seed': 9, 'target': 120, 'start': None},
     {'frags': '{#PMA=[>]CC[<]C(=O)OC[>A],#PEG=[<A]COC[>A][$A],#OH=[$B]O}', 'aa': True,
      'poly': {'<': 0.1, '>': 0.1, '>A': 0.8, '<A': 0.8, '$A': 0.3, '$B': 0.0},
      'fragreact': {'$A': {'$A': 0, '$B': 1.0}}, 'term': ['$A', '$B'], 'masses': None, 'seed': 3, 'target': 300,
@@ -430,7 +439,8 @@ class SamplerProp(common.Prop):
         if 'exc' in impl:
             return '%s:outside-domain-or-exception:%s@%d' % (mode, impl['exc'][0], impl['exc'][1])
         n = len(impl.get('added', []))
-        return '%s:%s' % (mode, 'no-growth' if n == 0 else ('1-3 steps' if n <= 3 else '4+ steps'))
+        dig = ':digit-label' if re.search(r'\[[$<>][A-Za-z0-9]*[0-9]\]', case['frags']) else ''
+        return '%s:%s%s' % (mode, 'no-growth' if n == 0 else ('1-3 steps' if n <= 3 else '4+ steps'), dig)
 
     def describe(self, case):
         return case
